@@ -587,7 +587,9 @@ def main(ctx):
     ring_bearings = tuple(45.0 * k for k in range(8))
     units_r = [(form, (ra, dec), (), ring_seps, ring_bearings)
                for dec in ring_decs for ra in ring_ras for form in RING_FORMS]
-    ctx.lattice("rings", units_r, one_pair, expand=expand1,
+    # (rings: also with numpy's FP error handling switched off - identical and antipodal pairs are where a cosine rounds
+    # one ulp outside [-1, 1])
+    ctx.lattice("rings", units_r, one_pair, expand=expand1, fpignore=True,
                 bounds=dict(latitudes="%g..%g step %g" % (ring_decs[0], ring_decs[-1], ring_decs[1] - ring_decs[0]),
                             longitudes=list(ring_ras), separations=list(ring_seps),
                             bearings=list(ring_bearings), forms=RING_FORMS,
